@@ -82,9 +82,9 @@ def run(ctx):
     ex = Expander()
     combos = list(R.all_combos())
     if ctx.quick:
-        placements, entries = ["named", "variant"], ["attr", "derive"]
+        placements, entries = ["named_after_plain", "variant"], ["attr", "derive"]
     else:
-        placements, entries = ["named", "tuple", "variant", "variant_tuple"], ["attr", "derive"]
+        placements, entries = ["named", "tuple", "variant", "variant_tuple", "named_after_plain", "tuple_after_plain", "variant_after_plain"], ["attr", "derive"]
     n, nontriv, samples = matrix(ctx, ex, placements, entries, combos)
     # the same matrix under other trait lists: every single trait, and (thorough: all, quick: a seeded third of) the other subsets;
     # the combination as the macro must see it is its restriction to the attributes owned by the listed traits (doc table)
